@@ -1,7 +1,7 @@
 #!/bin/bash
 # usage: tools/evalseed.sh Cxx [checks...]   — evaluates a seeded change living in /tmp/wt/Cxx (dev helper)
 id=$1; shift
-WT=/tmp/wt/$id; OUT=/tmp/seeds/$id
+WT=${SEEDWT:-/tmp/wt}/$id; OUT=${SEEDOUT:-/tmp/seeds}/$id
 export GOFLAGS=-mod=mod GOPROXY=off
 {
 echo "== existing tests on changed tree"
